@@ -97,6 +97,8 @@ func generate(family string, n int, seed uint64) []Scenario {
 			out = append(out, genErrWin(rr, i))
 		case "multifail":
 			out = append(out, genMultiFail(rr, i))
+		case "churn":
+			out = append(out, genChurn(rr, i))
 		case "boot":
 			out = append(out, genBoot(rr, i))
 		default:
